@@ -456,4 +456,151 @@ theorem atol_tail (neg : Bool) (ds : List Nat) (t : Byte) (rest : List Byte) (hd
     have hlt : ¬ ofDigits 10 ds < 2 ^ 63 := by omega
     cases neg <;> simp [hle, hlt]
 
+
+/-! ## debug_print_dump -/
+
+theorem isprintI_byte : ∀ b : Byte, isprintI b.toInt = decide (32 ≤ b.toNat ∧ b.toNat ≤ 126) := by decide
+
+def asciiOf (bytes : List Byte) (j : Nat) : Byte :=
+  match bytes[j]? with
+  | some b => if 32 ≤ b.toNat ∧ b.toNat ≤ 126 then b else 0x2E#8
+  | none => 0x20#8
+
+theorem dumpAscii_spec (mem : List Byte) (len : Nat) : ∀ (cnt j : Nat) (out : List Byte),
+    (len ≤ mem.length ∨ j + cnt ≤ mem.length) →
+    dumpAscii mem.toArray len cnt j out = some (emit out ((List.range' j cnt).map (asciiOf (mem.take len)))) := by
+  intro cnt
+  induction cnt with
+  | zero => intro j out _; simp [dumpAscii, emit]
+  | succ cnt ih =>
+    intro j out h
+    simp only [dumpAscii, List.getElem?_toArray, List.range'_succ, List.map_cons]
+    by_cases hj : j ≥ len
+    · rw [if_pos hj, ih (j + 1) _ (by omega), emit_emit]
+      have : asciiOf (mem.take len) j = 0x20#8 := by
+        simp only [asciiOf, List.getElem?_take]
+        rw [if_neg (by omega)]
+      rw [this]; rfl
+    · rw [if_neg hj]
+      have hm : j < mem.length := by omega
+      rw [List.getElem?_eq_getElem hm]
+      simp only []
+      rw [ih (j + 1) _ (by omega), emit_emit]
+      have : asciiOf (mem.take len) j = if isprintI mem[j].toInt then mem[j] else 0x2E#8 := by
+        simp only [asciiOf, List.getElem?_take]
+        rw [if_pos (by omega), List.getElem?_eq_getElem hm, isprintI_byte]
+        simp
+      rw [this]; rfl
+
+theorem printhexPtr_spec (a : BitVec 64) :
+    printhexPtr a = some ((fixedDigits 16 16 a.toNat).map (digitChar true)) := by
+  rw [printhexPtr, writehexReversed, writeRevLoop_spec]
+  have h8 : (8#16 : BitVec 16).toNat = 8 := rfl
+  simp only [h8, Nat.zero_add]
+  have : 8 = 0 ∨ 8 ≤ 8 ∧ 8 ≤ (bytesLE a 8).length := by rw [bytesLE_length]; omega
+  rw [if_pos this]
+  simp only [Option.map_some, emit_nil_reverse, Nat.sub_self, List.drop_zero]
+  rw [List.take_of_length_le (by rw [bytesLE_length]; omega)]
+  have := printhexBytes_spec 8 a
+  simp only [printhexBytes] at this
+  rw [this]
+
+theorem dumpCell_eq (addr : Nat) (bytes : List Byte) (i : Nat) :
+    dumpCellSpec addr bytes i
+      = (if i % 8 = 0 then [0x30#8, 0x78#8] ++ (fixedDigits 16 16 ((addr + i) % 2 ^ 64)).map (digitChar true) ++ [0x3A#8] else [])
+        ++ (match bytes[i]? with
+            | some b => (fixedDigits 16 2 b.toNat).map (digitChar true) ++ [0x20#8]
+            | none => [0x20#8, 0x20#8, 0x20#8])
+        ++ (if i % 8 = 7 then (List.range' (i - 7) 8).map (asciiOf bytes) ++ [0x0D#8, 0x0A#8] else []) := rfl
+
+theorem dumpLoop_spec (addr : BitVec 64) (mem : List Byte) (len : Nat) (hlen : len ≤ mem.length) :
+    ∀ (left i : Nat) (out : List Byte),
+    dumpLoop addr mem.toArray len left i out
+      = some (emit out ((List.range' i left).flatMap (dumpCellSpec addr.toNat (mem.take len)))) := by
+  intro left
+  induction left with
+  | zero => intro i out; simp [dumpLoop, emit]
+  | succ left ih =>
+    intro i out
+    have hptr : (addr + BitVec.ofNat 64 i).toNat = (addr.toNat + i) % 2 ^ 64 := by
+      simp [BitVec.toNat_add]
+    have p1 : ∀ o : List Byte,
+        (if i % 8 = 0 then
+            (printhexPtr (addr + BitVec.ofNat 64 i)).map fun s => emit (emit (emit o [0x30#8, 0x78#8]) s) [0x3A#8]
+          else some o)
+        = some (emit o (if i % 8 = 0 then [0x30#8, 0x78#8] ++ (fixedDigits 16 16 ((addr.toNat + i) % 2 ^ 64)).map (digitChar true) ++ [0x3A#8] else [])) := by
+      intro o
+      by_cases h0 : i % 8 = 0
+      · rw [if_pos h0, if_pos h0, printhexPtr_spec, hptr]
+        simp [emit_emit]
+      · rw [if_neg h0, if_neg h0]; simp [emit]
+    have p2 : ∀ o : List Byte,
+        (if i < len then (mem[i]?).map fun b => emit (emit o (printhexU8 b)) [0x20#8]
+          else some (emit o [0x20#8, 0x20#8, 0x20#8]))
+        = some (emit o (match (mem.take len)[i]? with
+            | some b => (fixedDigits 16 2 b.toNat).map (digitChar true) ++ [0x20#8]
+            | none => [0x20#8, 0x20#8, 0x20#8])) := by
+      intro o
+      by_cases hi : i < len
+      · have hm : i < mem.length := by omega
+        rw [if_pos hi, List.getElem?_take, if_pos hi, List.getElem?_eq_getElem hm]
+        simp only [Option.map_some, emit_emit, printhexU8_spec]
+      · rw [if_neg hi, List.getElem?_take, if_neg hi]
+    have p3 : ∀ o : List Byte,
+        (if i % 8 = 7 then (dumpAscii mem.toArray len 8 (i - 7) o).map fun o => emit o [0x0D#8, 0x0A#8]
+          else some o)
+        = some (emit o (if i % 8 = 7 then (List.range' (i - 7) 8).map (asciiOf (mem.take len)) ++ [0x0D#8, 0x0A#8] else [])) := by
+      intro o
+      by_cases h7 : i % 8 = 7
+      · rw [if_pos h7, if_pos h7, dumpAscii_spec mem len 8 (i - 7) o (Or.inl hlen)]
+        simp [emit_emit]
+      · rw [if_neg h7, if_neg h7]; simp [emit]
+    have hr : List.range' i (left + 1) = i :: List.range' (i + 1) left := List.range'_succ ..
+    rw [hr, List.flatMap_cons, dumpCell_eq]
+    simp only [dumpLoop, List.getElem?_toArray]
+    rw [p1]; simp only [Option.bind_some]
+    rw [p2]; simp only [Option.bind_some]
+    rw [p3]; simp only [Option.bind_some]
+    rw [ih (i + 1)]
+    simp only [emit_emit, List.append_assoc]
+
+theorem dump_total (n : Nat) : n + (if n % 8 ≠ 0 then 8 - n % 8 else 0) = 8 * ((n + 7) / 8) := by
+  split <;> omega
+
+/-- a dump that is asked for more bytes than the object holds reads outside it -/
+theorem dumpLoop_fault (addr : BitVec 64) (mem : List Byte) (len : Nat) (hlen : mem.length < len) :
+    ∀ (left i : Nat) (out : List Byte), i ≤ mem.length → mem.length < i + left →
+    dumpLoop addr mem.toArray len left i out = none := by
+  intro left
+  induction left with
+  | zero => intro i out h1 h2; omega
+  | succ left ih =>
+    intro i out h1 h2
+    simp only [dumpLoop, List.getElem?_toArray]
+    rw [printhexPtr_spec]
+    have hlt : i < len := by omega
+    have first : ∀ f : List Byte → Option (List Byte), (∀ o, f o = none) →
+        ((if i % 8 = 0 then
+            Option.map (fun s => emit (emit (emit out [0x30#8, 0x78#8]) s) [0x3A#8])
+              (some (List.map (digitChar true) (fixedDigits 16 16 (addr + BitVec.ofNat 64 i).toNat)))
+          else some out).bind f) = none := by
+      intro f hf
+      split <;> simp [hf]
+    apply first
+    intro o
+    rw [if_pos hlt]
+    by_cases hi : i = mem.length
+    · have hnone : mem[i]? = none := by simp; omega
+      rw [hnone]; rfl
+    · have hm : i < mem.length := by omega
+      rw [List.getElem?_eq_getElem hm]
+      simp only [Option.map_some, Option.bind_some]
+      by_cases h7 : i % 8 = 7
+      · rw [if_pos h7, dumpAscii_spec mem len 8 (i - 7) _ (Or.inr (by omega))]
+        simp only [Option.map_some, Option.bind_some]
+        exact ih (i + 1) _ (by omega) (by omega)
+      · rw [if_neg h7]
+        simp only [Option.bind_some]
+        exact ih (i + 1) _ (by omega) (by omega)
+
 end Igris.C07
